@@ -101,8 +101,14 @@ Example encrypt_rejections :
   do_encrypt toyE toyR CA_AES key16 (Some BCM_CBC) (Some PM_PKCS5) None (Some [1]) None [1] = RErr InvalidField /\   (* AAD outside GCM *)
   do_encrypt toyE toyR CA_AES key16 (Some BCM_GCM) None None None None [1] = RErr InvalidField /\            (* GCM without tag length *)
   do_encrypt toyE toyR CA_AES [1;2;3] (Some BCM_CBC) (Some PM_PKCS5) None None None [1] = RErr CryptographicFailure /\
-  do_encrypt toyE toyR CA_AES key16 (Some BCM_CBC) (Some PM_PKCS5) (Some [1;2;3]) None None [1] = RCrash /\   (* wrong IV length: the library raises, not a KMIP error *)
-  do_encrypt toyE toyR CA_AES key16 (Some BCM_GCM) None (Some (repeat 9 12)) None (Some 3) [1] = RCrash.      (* tag length < 4: likewise *)
+  (* wrong IV length: refused by Cipher(...) -> CryptographicFailure (fix f8d262f) *)
+  do_encrypt toyE toyR CA_AES key16 (Some BCM_CBC) (Some PM_PKCS5) (Some [1;2;3]) None None [1] = RErr CryptographicFailure /\
+  (* GCM tag length < 4 / IV shorter than 8: refused by GCM(...) -> InvalidField *)
+  do_encrypt toyE toyR CA_AES key16 (Some BCM_GCM) None (Some (repeat 9 12)) None (Some 3) [1] = RErr InvalidField /\
+  do_encrypt toyE toyR CA_AES key16 (Some BCM_GCM) None (Some [1;2;3]) None (Some 16) [1] = RErr InvalidField /\
+  (* the two corners that still leave with a non-KMIP exception: RC4 named with CBC + padding, RC4 named with GCM *)
+  do_encrypt toyE toyR CA_RC4 key16 (Some BCM_CBC) (Some PM_PKCS5) None None None [1] = RCrash /\
+  do_encrypt toyE toyR CA_RC4 key16 (Some BCM_GCM) None None None (Some 16) [1] = RCrash.
 Proof. vm_compute. repeat split. Qed.
 
 (* ---------------------------------------------------------------- gcm_plumbs_tag_and_aad *)
@@ -143,9 +149,9 @@ Proof. vm_compute. reflexivity. Qed.
    or refuses with InvalidField when a digital signature algorithm is given TOGETHER with a different
    separate hash / algorithm (Sign silently prefers the digital signature algorithm; quirk, see notes). *)
 Theorem verify_plan_matches_sign_plan :
-  forall p sp, sign_plan p = Ok sp -> lib_sign_ok sp = true ->
+  forall p sp, sign_plan p = Ok sp ->
                verify_plan p = Ok sp \/ (verify_plan p = Err InvalidField /\ dsa_inconsistent p).
-Proof. exact verify_matches_sign. Qed.
+Proof. exact verify_matches_sign'. Qed.
 Print Assumptions verify_plan_matches_sign_plan.
 
 Theorem dsa_and_separate_parameters_select_the_same_plan :
@@ -164,8 +170,8 @@ Example sign_verify_examples :
   (* the quirk: dsa says SHA-256, separate hash says SHA-1 (4): Sign signs with SHA-256, Verify refuses *)
   sign_plan (mkSig (Some 5) None (Some 4) (Some PM_PKCS1v15) true) = Ok (mkSigPlan (Some 4) SPKCS1) /\
   verify_plan (mkSig (Some 5) None (Some 4) (Some PM_PKCS1v15) true) = Err InvalidField /\
-  (* unsupported separate hash (MD2 = 1): Sign reaches hash_alg() on None (non-KMIP TypeError, left to C13) *)
-  sign_plan (mkSig None (Some CA_RSA) (Some 1) (Some PM_PKCS1v15) true) = Ok (mkSigPlan None SPKCS1) /\
+  (* unsupported separate hash (MD2 = 1): Sign refuses with InvalidField (fix fd6e5cc), Verify with CryptographicFailure *)
+  sign_plan (mkSig None (Some CA_RSA) (Some 1) (Some PM_PKCS1v15) true) = Err InvalidField /\
   verify_plan (mkSig None (Some CA_RSA) (Some 1) (Some PM_PKCS1v15) true) = Err CryptographicFailure.
 Proof. vm_compute. repeat split. Qed.
 
@@ -204,13 +210,18 @@ Proof. exact derive_table. Qed.
 Print Assumptions derivation_table.
 
 Theorem derivation_encrypt_is_the_symmetric_path :
-  forall p, d_method p = Some DM_ENCRYPT ->
+  forall p, d_method p = Some DM_ENCRYPT -> is_some (d_data p) = true ->
   derive_plan p =
   match encrypt_plan (mkEnc (d_alg p) (match d_key p with Some k => k | None => [] end) (d_key_loads p)
                             (d_mode p) (d_pad p) (d_iv p) None None None None) with
   | Err e => Err e | Ok c => Ok (DEncrypt c) end.
 Proof. exact derive_encrypt_is_encrypt. Qed.
 Print Assumptions derivation_encrypt_is_the_symmetric_path.
+
+Theorem derivation_encrypt_needs_data :
+  forall p, d_method p = Some DM_ENCRYPT -> d_data p = None -> derive_plan p = Err InvalidField.
+Proof. exact derive_encrypt_needs_data. Qed.
+Print Assumptions derivation_encrypt_needs_data.
 
 Example derive_examples :
   derive_finish 4 [1;2;3;4;5;6] = Ok [1;2;3;4] /\ derive_finish 7 [1;2;3;4;5;6] = Err CryptographicFailure /\
@@ -220,10 +231,7 @@ Example derive_examples :
 Proof. vm_compute. repeat split. Qed.
 
 (* ---------------------------------------------------------------- rejects_or_plans *)
-(* Every parameter tuple yields a KMIP error class or a plan - the model has no third outcome.  Where the
-   Python can leave with a non-KMIP exception (wrong IV length, cipher/mode pairs OpenSSL rejects, GCM tag
-   length < 4, hash_alg() on None, HKDF/PBKDF2/KBKDF with missing key material, invalid padding bytes,
-   InvalidTag) the model yields a plan on which lib_*_ok is false; judging that outcome is C13's concern. *)
+(* Every parameter tuple yields a KMIP error class or a plan - the plan functions have no third outcome. *)
 Theorem rejects_or_plans :
   (forall dec p, (exists e, crypt_plan_of dec p = Err e) \/ (exists pl, crypt_plan_of dec p = Ok pl)) /\
   (forall p, (exists e, sign_plan p = Err e) \/ (exists pl, sign_plan p = Ok pl)) /\
@@ -235,6 +243,63 @@ Theorem rejects_or_plans :
   (forall a l, (exists e, create_pair_plan a l = Err e) \/ (exists pl, create_pair_plan a l = Ok pl)).
 Proof. repeat split; intros; apply res_total. Qed.
 Print Assumptions rejects_or_plans.
+
+(* STRONGER since the fix: commits f8d262f f56c8fe 832c54a fd6e5cc (the engine converts the library's refusals):
+   executing the plan does not end in a non-KMIP exception either.  For EVERY abstract cipher (no law assumed),
+   every algorithm but RC4, every key / mode / padding / IV / AAD / tag (length) / message, symmetric Encrypt and
+   Decrypt end in a result or in InvalidField / CryptographicFailure: wrong IV length, cipher/mode pairs OpenSSL
+   rejects, unusable key sizes, GCM tag length < 4, bad ciphertext length, invalid padding bytes, InvalidTag are
+   all KMIP errors now. *)
+Theorem encrypt_decrypt_never_leave_with_a_non_kmip_exception :
+  forall E Dp urandom a key mode padm iv aad,
+    a <> CA_RC4 ->
+    (forall taglen msg, do_encrypt E urandom a key mode padm iv aad taglen msg <> RCrash) /\
+    (forall tag ct, do_decrypt Dp urandom a key mode padm iv aad tag ct <> RCrash).
+Proof. intros. split; intros; [apply do_encrypt_no_crash|apply do_decrypt_no_crash]; auto. Qed.
+Print Assumptions encrypt_decrypt_never_leave_with_a_non_kmip_exception.
+
+(* what is left: only a cipher class without block size, or used without a mode (RC4 named together with CBC/ECB +
+   padding, or with GCM) - `encrypt_rejections` above shows both instances; they stay C13's concern *)
+Theorem remaining_non_kmip_exceptions_need_rc4 :
+  forall dec p n, lib_sym_stage dec p n = LCrash -> p_block p <= 0 \/ mode_val (p_mode p) = -1.
+Proof. exact stage_crash_only_without_block_or_mode. Qed.
+Print Assumptions remaining_non_kmip_exceptions_need_rc4.
+
+(* authenticated decryption: a refusal by the primitive (InvalidTag after any change to ciphertext, tag or AAD)
+   surfaces as CryptographicFailure *)
+Theorem gcm_tamper_rejection_is_cryptographic_failure :
+  forall Dp urandom a key padm iv aad tag ct sp,
+    sym_plan_of true a key (Some BCM_GCM) padm iv aad None tag = Ok sp ->
+    lib_sym_stage true sp (zlen ct) = LOk ->
+    Dp (p_alg sp) (p_key sp) (mode_val (p_mode sp)) (mode_iv urandom (p_mode sp)) (p_aad sp) (mode_tag (p_mode sp)) ct = None ->
+    do_decrypt Dp urandom a key (Some BCM_GCM) padm iv aad tag ct = RErr CryptographicFailure.
+Proof. exact gcm_reject_is_cryptographic_failure. Qed.
+Print Assumptions gcm_tamper_rejection_is_cryptographic_failure.
+
+Definition rejectD (a : Z) (k : bytes) (m : Z) (iv aad tag : option bytes) (ct : bytes) : option bytes := None.
+Example gcm_tamper_example :
+  do_decrypt rejectD toyR CA_AES key16 (Some BCM_GCM) None (Some (repeat 9 12)) (Some [5;5]) (Some (repeat 3 16)) [1;2;3]
+  = RErr CryptographicFailure /\
+  do_decrypt toyD toyR CA_AES key16 (Some BCM_CBC) (Some PM_PKCS5) (Some (repeat 9 16)) None None (repeat 0 16)
+  = RErr CryptographicFailure /\                                     (* padding bytes invalid *)
+  do_decrypt toyD toyR CA_AES key16 (Some BCM_CBC) (Some PM_PKCS5) (Some (repeat 9 16)) None None [1;2;3]
+  = RErr CryptographicFailure /\                                     (* ciphertext not a block multiple *)
+  do_decrypt toyD toyR CA_AES key16 (Some BCM_GCM) None (Some (repeat 9 12)) None (Some [1;2;3]) [1]
+  = RErr InvalidField.                                               (* tag shorter than 4 bytes: GCM(...) refuses *)
+Proof. vm_compute. repeat split. Qed.
+
+(* Sign never reaches hash_alg() on None; the key derivation functions' refusals are InvalidField *)
+Theorem sign_plans_name_their_hash : forall p sp, sign_plan p = Ok sp -> exists h, sg_hash sp = Some h.
+Proof.
+  intros p sp H. apply sign_plan_has_hash in H. unfold lib_sign_ok in H.
+  destruct (sg_hash sp); [eauto|discriminate].
+Qed.
+Print Assumptions sign_plans_name_their_hash.
+
+Theorem key_derivation_functions_never_leave_with_a_non_kmip_exception :
+  forall dp n, match dp with DEncrypt _ => True | _ => lib_der_stage dp n <> LCrash end.
+Proof. exact kdf_stage_never_crashes. Qed.
+Print Assumptions key_derivation_functions_never_leave_with_a_non_kmip_exception.
 
 (* the accepted set of _encrypt_symmetric written declaratively; the equivalence with sym_plan_of is
    NOT proved yet (the case split is large) - kept visible as a statement, tested by the grid *)
